@@ -4,6 +4,7 @@ import Flowjaxv.Proofs.Planar
 import Flowjaxv.Proofs.Triangular
 import Flowjaxv.Proofs.NetLogDet
 import Flowjaxv.Proofs.BnafLd
+import Flowjaxv.Proofs.JaxTransforms
 /-!
 # C02 — the log-determinant is the log-determinant
 
@@ -625,5 +626,45 @@ theorem bnaf_logdet_full_instance (v : Fin 2 → ℝ) :
 
 end NetworkLogDets
 /-! ## ===== END network bijections ===== -/
+
+/-! ## Scan, REGENERATED (`Gen/JaxTransforms.lean`; meanings of `lax.scan` / `eqx.partition` / `eqx.combine`: `Model/JaxTrWorld.lean`) -/
+section JaxTransformsGen
+open GenJaxTr
+
+/-- **chain rule for the generated `Scan`**: the log-det that the generated `Scan.transform_and_log_det` accumulates in its scan
+carry (`log_det + log_det_i.sum()` from the initial `0`) is `log |derivative|` of the generated `Scan.transform`, for any number of
+layers each correct on its own stage. -/
+theorem gen_scan_ld {C : Type} {s : JaxTr.Scan ℝ C ℝ} {D E : Set ℝ}
+    (h : LogDet.ChainAll Bij.LdCorrect s.bijection.layers D E) : s.toBij.LdCorrect D := JaxTrProofs.scan_ld h
+
+/-- the generated `Scan.inverse_and_log_det` (`reverse=True`) returns minus the forward log-det at the preimage whenever every
+layer does — any point type, any number of layers. -/
+theorem gen_scan_ld_antisym {X C : Type} {s : JaxTr.Scan X C ℝ} {D E : Set X}
+    (h : LogDet.ChainAll Bij.LdAntisym s.bijection.layers D E) : s.toBij.LdAntisym D := JaxTrProofs.scan_ld_antisym h
+
+/-- non-vacuity: `Scan` of the stacked layers `Affine(1, −2)`, `Affine(1/2, 4)` -/
+theorem gen_scan_ld_instance {C : Type} :
+    (JaxTr.scanOfLayers [((Affine.mk 1 (-2) : Affine ℝ).toBij : Bij ℝ C ℝ), (Affine.mk (1/2) 4 : Affine ℝ).toBij]).toBij.LdCorrect univ
+    ∧ (JaxTr.scanOfLayers [((Affine.mk 1 (-2) : Affine ℝ).toBij : Bij ℝ C ℝ), (Affine.mk (1/2) 4 : Affine ℝ).toBij]).toBij.LdAntisym univ :=
+  ⟨gen_scan_ld (.cons (Leaves.affine_lawful _ (by norm_num)) (LogDet.affine_ld _ (by norm_num)).ldCorrect
+      (.cons (Leaves.affine_lawful _ (by norm_num)) (LogDet.affine_ld _ (by norm_num)).ldCorrect (.nil _))),
+   gen_scan_ld_antisym (.cons (Leaves.affine_lawful _ (by norm_num)) (LogDet.affine_ld_antisym _)
+      (.cons (Leaves.affine_lawful _ (by norm_num)) (LogDet.affine_ld_antisym _) (.nil _)))⟩
+
+/-- **log-det of the generated `Vmap`**: both `…_and_log_det` methods return `jnp.sum` of the per-call log-dets — call `i` being the
+child method on (slice `i` of the bijection or the shared one, slice `i` of the input along axis 0, slice `i` of the condition or
+the shared one) — i.e. the log-det of the block-diagonal Jacobian; every `in_axes`, `in_axes_condition`, axis size. -/
+theorem gen_vmap_ld {κ : Type} [Inhabited κ] (v : JaxTr.Vmap κ ℝ) (x c : Arr κ) :
+    (Vmap.transform_and_log_det v x c).2
+      = JaxTr.jnpSum (JaxTr.zipWith3 (fun b xi ci => (b.fwdLd xi ci).2) (JaxTr.mapModule v.in_axes.1 v.bijection v.axis_size)
+          (JaxTr.unstack x v.axis_size ((v.in_axes.2.1 : Nat) : Int)) (JaxTr.mapArg v.in_axes.2.2 c v.axis_size))
+    ∧ (Vmap.inverse_and_log_det v x c).2
+      = JaxTr.jnpSum (JaxTr.zipWith3 (fun b xi ci => (b.invLd xi ci).2) (JaxTr.mapModule v.in_axes.1 v.bijection v.axis_size)
+          (JaxTr.unstack x v.axis_size ((v.in_axes.2.1 : Nat) : Int)) (JaxTr.mapArg v.in_axes.2.2 c v.axis_size)) := by
+  have h := JaxTrProofs.vmap_slicewise v x c
+  exact ⟨by rw [h.2.2.1], by rw [h.2.2.2]⟩
+
+end JaxTransformsGen
+
 
 end C02
